@@ -20,6 +20,7 @@ package main
 import (
 	"bytes"
 	"context"
+	"crypto"
 	"encoding/json"
 	"fmt"
 	"io"
@@ -158,7 +159,11 @@ func signVerify(alg, role string, i int) (msg string) {
 	other := keys.Get(alg, "stranger")
 	payload := []byte(fmt.Sprintf("signed by thread %d", i))
 	s := cose.Sign1[[]byte, []byte]{Payload: cbor.NewByteWrap(payload)}
-	if err := s.Sign(key, nil, nil, nil); err != nil {
+	var opts crypto.SignerOpts
+	if strings.HasPrefix(alg, "rsa") {
+		opts = crypto.SHA256 // RSA keys need the hash named (RS256); EC keys derive it from the curve
+	}
+	if err := s.Sign(key, nil, nil, opts); err != nil {
 		return "Sign: " + err.Error()
 	}
 	b, err := cbor.Marshal(s.Tag())
@@ -505,6 +510,11 @@ func scenarios(thorough bool) []scenario {
 	for pi, sp := range signPairs {
 		if !thorough && pi > 0 {
 			break
+		}
+		for i := range sp {
+			if e := signVerify(sp[i].alg, sp[i].role, i); e != "" {
+				fatal("sign pair %d thread %d fails alone: %s", pi, i, e)
+			}
 		}
 		out = append(out, scenario{Name: fmt.Sprintf("sign-pair %s || %s", sp[0].alg, sp[1].alg), Bound: 2,
 			run: func(choose vsync.Chooser) (vsync.Result, [][2]string, string) {
